@@ -31,7 +31,7 @@ TAU = 3e-9
 
 
 def cases(tier, seed):
-    reps = 4 if tier == "quick" else 100
+    reps = 4 if tier == "quick" else 30
     out = []
     for kind in gen.KINDS:
         for nv in range(1, 5):
